@@ -180,16 +180,25 @@ def condEqPos (res : Var) (body : Lin) (rhs : Rat) (B : Bnds) : Out :=
     (if (B res).fixedVal != 0 then { cons := [.linRhs .eq body rhs] } else {})
   else { cons := [.indLin res 1 .eq body rhs] }
 
-/-- `ConvertCtxNeg`: `res = 0 ⇒ body ≤ rhs - eps ∨ body ≥ rhs + eps` via two fresh binaries -/
+/-- separation bounds of the negative part (as of /repo c58c7b7): for an integer body the nearest integers strictly
+below / above `rhs` (`ceil(rhs) - 1`, `floor(rhs) + 1`; `rhs` may be fractional), else `rhs ∓ eps`.
+History: before c58c7b7 integer bodies used `rhs ∓ 1`, which cut off the integers next to a fractional `rhs`
+(finding C01-condeq-fractional-rhs, found by this check). -/
+def condEqLo (o : Opts) (isI : Bool) (rhs : Rat) : Rat :=
+  if isI then (rhs.ceil : Rat) - 1 else rhs - cmpEpsOf o isI
+def condEqHi (o : Opts) (isI : Bool) (rhs : Rat) : Rat :=
+  if isI then (rhs.floor : Rat) + 1 else rhs + cmpEpsOf o isI
+
+/-- `ConvertCtxNeg`: `res = 0 ⇒ body ≤ lo ∨ body ≥ hi` via two fresh binaries -/
 def condEqNeg (res : Var) (body : Lin) (rhs : Rat) (B : Bnds) (o : Opts) (n : Nat) : Out :=
   if body.isEmpty then
     (if rhs == 0 then { narrow := [(res, { lb := some 1, ub := some 1 })] } else {})
   else if !(B res).isFixed || (B res).fixedVal == 0 then
-    let eps := cmpEpsOf o (linBnd B body).2.2
+    let isI := (linBnd B body).2.2
     { vars := [VarInfo.binary, VarInfo.binary],
       cons := [.linRhs .ge [(1, n), (1, n + 1), (1, res)] 1,
-               .indLin n 1 .le body (rhs - eps),
-               .indLin (n + 1) 1 .ge body (rhs + eps)] }
+               .indLin n 1 .le body (condEqLo o isI rhs),
+               .indLin (n + 1) 1 .ge body (condEqHi o isI rhs)] }
   else {}
 
 /-- `CondEQConverter_MIP::Convert` for the cases converted here (more than one variable, or a variable
